@@ -53,11 +53,6 @@ structure DS where
   retried : List Batch := []        -- batches whose last answer was `quota` (a second `add` of them is the retry)
   bad : Option String := none
 
-/-- the submitter's reaction to ResourceExhausted, as regenerated from trillian.go: the switch asks for a retry and
-the value it returns for that is one `backoff.Retry` recognises -/
-def codeRetriesQuota : Bool :=
-  (Gen.retryTable.lookup 8 == some 1) && Gen.errRetryIsRetriable
-
 def cfgOf (d : DS) : Cfg :=
   { src := C16.pay d.seed, idf := fun i p => i + 7 * p, retryQuota := codeRetriesQuota }
 
